@@ -109,6 +109,7 @@ type scenario struct {
 	GCStress    bool `json:"gc_stress,omitempty"`
 	ShutCallers int  `json:"shut_callers,omitempty"` // goroutines calling log.Shutdown concurrently (0 = 1)
 	IdleRounds  int  `json:"idle_rounds,omitempty"`  // family idle: held-final-Write rounds after each phase
+	EarlyLines  int  `json:"early_lines,omitempty"`  // family early: lines between Start and the immediate Shutdown
 	// workload mix switches
 	Tracers bool `json:"tracers"`
 	Dense   bool `json:"dense"` // many runs / shared / colliding texts (merging)
@@ -230,6 +231,15 @@ func genScenario(cfg vlib.Cfg, n int, build string, family string) scenario {
 		s.Sched = r.Bool()
 		s.Trig = trigSpec{WithholdUntil: vlib.Pick(r, -1, 0), EveryUs: vlib.Pick(r, 0, 100)}
 		nph = r.Range(1, 3)
+	case "early":
+		// Start, a few lines, Shutdown at once (one goroutine; writer free or scheduled)
+		s.Producers = 1
+		nph = 1
+		total = 1
+		s.Sched = r.Chance(1, 3)
+		s.Trig = trigSpec{WithholdUntil: -1}
+		s.EarlyLines = vlib.Pick(r, 1, 2, 3, 5, 8, 20, 60)
+		s.Procs = vlib.Pick(r, 0, 1, 1, 2)
 	case "idle":
 		// free-running writer, small phases, idle rounds at every barrier
 		s.Producers = vlib.Pick(r, 1, 2, 4, 8)
@@ -341,7 +351,7 @@ func genScenario(cfg vlib.Cfg, n int, build string, family string) scenario {
 	tot := s.totalOps()
 	s.Shutdown = "end"
 	switch s.Family {
-	case "squeeze", "twin", "idle":
+	case "squeeze", "twin", "idle", "early":
 		s.Shutdown = "end"
 	case "small":
 		if r.Chance(1, 2) {
@@ -360,7 +370,7 @@ func genScenario(cfg vlib.Cfg, n int, build string, family string) scenario {
 			s.ShutExtra = r.Intn(300)
 		}
 	}
-	if r.Chance(2, 5) {
+	if r.Chance(2, 5) && s.Family != "early" {
 		s.ShutCallers = r.Range(2, 3)
 	}
 	return s
